@@ -22,7 +22,7 @@ TRUSTED = [
     'costs are integers (as the real n^2 / n^3 costs are), also scaled by exact powers of two (small fractional costs): float rounding inside Python load accumulation is outside the model and the generator',
     'factor names are mapped to their rank in Python string order by the harness',
 ]
-THEOREMS = ['greedy_rule', 'greedy_complete_confined', 'greedy_colocated', 'balance_workers', 'balance_groups']
+THEOREMS = ['greedy_rule', 'greedy_complete_confined', 'greedy_colocated', 'balance_workers', 'balance_groups', 'greedy_in_relation', 'greedy_scale_invariant']
 NOTES = ('Theorems are proved for every assignment accepted by greedy_ok_b (free tie-breaks among '
          'equally loaded groups/workers, fixed stable processing order), for all world sizes, '
          'disjoint groups and non-negative integer costs.')
